@@ -8,7 +8,9 @@
 use crate::{
     account_set::{
         account::discriminant::AccountDiscriminant,
-        modifiers::{HasOwnerProgram, HasSeeds, OwnerProgramDiscriminant},
+        modifiers::{
+            seeded::without_bump_placeholder, HasOwnerProgram, HasSeeds, OwnerProgramDiscriminant,
+        },
         ClientAccountSet,
     },
     instruction::InstructionDiscriminant,
@@ -57,11 +59,14 @@ impl<T> MakeInstruction for T where T: StarFrameProgram + ?Sized {}
 
 pub trait FindProgramAddress: HasSeeds + HasOwnerProgram {
     fn find_program_address(seeds: &Self::Seeds) -> (Pubkey, u8) {
-        Pubkey::find_program_address(&seeds.seeds(), &Self::OwnerProgram::ID)
+        Pubkey::find_program_address(
+            &without_bump_placeholder(seeds.seeds()),
+            &Self::OwnerProgram::ID,
+        )
     }
 
     fn create_program_address(seeds: &Self::Seeds, bump: u8) -> Result<Pubkey> {
-        let mut seeds = seeds.seeds();
+        let mut seeds = without_bump_placeholder(seeds.seeds());
         let bump = &[bump];
         seeds.push(bump);
         Ok(Pubkey::create_program_address(
